@@ -9,8 +9,9 @@
    a prefix of the contract's interval output (hence inside the interval and in order) of length >= min(limit, all) —
    and the final states are related by R again (the raw contents are the contract's map; a failed batch leaves
    the contract state, hence the map, unchanged).
-   `C11_full_statement A m R` is the same without any restriction on the sequences.  It is REFUTED for memkv, Badger
-   and TiKV by the three deviations recorded in known_findings.d/C11.json, and proved for the complement. *)
+   `C11_full_statement A m R` is the same without any restriction on the sequences.  It is proved for memkv (finding
+   C11-F3 is fixed) and REFUTED for Badger and TiKV by the two open deviations recorded in known_findings.d/C11.json,
+   for which the complement is proved. *)
 From KB Require Import Base.Cases Model.Store Model.Adapters Model.C11Cases
   Proofs.Store Proofs.AdapterLists Proofs.Adapters Proofs.C11Cases.
 Local Open Scope N_scope.
@@ -72,14 +73,10 @@ Print Assumptions C11_batch_sorted.
 
 (* ---- refinement, per adapter ---- *)
 
-(* memkv refines the contract (compare-and-delete by value) on sequences that write no empty value (finding C11-F3) *)
-Theorem C11_refines_memkv_except_F3 : refines_on memkv ByValue mem_R seq_nonempty.
+(* memkv refines the contract (compare-and-delete by value) on every operation sequence *)
+Theorem C11_refines_memkv : C11_full_statement memkv ByValue mem_R.
 Proof. exact refines_memkv. Qed.
-Print Assumptions C11_refines_memkv_except_F3.
-
-Theorem C11_refines_memkv_refuted : ~ C11_full_statement memkv ByValue mem_R.
-Proof. exact full_memkv_refuted. Qed.
-Print Assumptions C11_refines_memkv_refuted.
+Print Assumptions C11_refines_memkv.
 
 (* TiKV refines the contract (by value) on sequences that write no empty value (finding C11-F1) *)
 Theorem C11_refines_tikv_except_F1 : refines_on tikv ByValue tikv_R seq_nonempty.
@@ -106,7 +103,7 @@ Proof. exact refines_wrapper. Qed.
 Print Assumptions C11_refines_wrapper.
 
 (* the exact per-batch statements behind the sequence theorems (complement of the deviations at batch level) *)
-Theorem C11_batch_refines_memkv : forall s c ops, mem_R s c -> Forall bop_nonempty ops ->
+Theorem C11_batch_refines_memkv : forall s c ops, mem_R s c ->
   batch_proj_ok ops (batch_eval ByValue c ops) (snd (fst (mem_batch_run s ops))) (snd (mem_batch_run s ops)) = true /\
   match batch_eval ByValue c ops with
   | Applied c' => mem_R (fst (fst (mem_batch_run s ops))) c'
@@ -178,9 +175,13 @@ Definition ex_ops : list sop :=
    SIter [99; 57] [99; 48] 0; SIter [102] [98] 1;
    SHold [0] [255; 255] 0 0; SBatch [BPut [98] [52] 0]; SDelCur; SGet [98]].
 
-Example C11_ex_memkv : mem_R [([98], [49])] (cs_of [([98], [49])]) /\ seq_nonempty ex_ops /\
-  Forall not_panic (snd (a_run memkv [] None ex_ops)).
-Proof. split; [repeat split; repeat constructor; discriminate|]. split; [repeat constructor; discriminate|]. vm_compute. repeat constructor. Qed.
+Example C11_ex_memkv : mem_R [([98], [49])] (cs_of [([98], [49])]) /\ Forall not_panic (snd (a_run memkv [] None ex_ops)).
+Proof. split; [repeat split; repeat constructor|]. vm_compute. repeat constructor. Qed.
+
+(* the witness of the repaired finding C11-F3 stays: the contract oracle now accepts memkv's answers to it *)
+Example C11_f3_witness_accepted :
+  exists cf, o_run_gen ByValue (fun _ _ => 0) (cs_of []) None (combine f3_ops (snd (a_run memkv [] None f3_ops))) = inl cf.
+Proof. exact f3_witness_accepted. Qed.
 
 Example C11_ex_tikv : tikv_R [([98], [49])] (cs_of [([98], [49])]) /\ Forall not_panic (snd (a_run tikv [] None ex_ops)).
 Proof. split; [repeat split; repeat constructor|]. vm_compute. repeat constructor. Qed.
